@@ -46,6 +46,7 @@ type vMon struct {
 	toSec       int64 // timeout, seconds part (floor) and nanoseconds part in [0,1e9)
 	toNsec      int64
 	clock0      int // number of clock readings consumed before the current call
+	callStartK  int // index of the harness's own clock reading taken just before the current call (-1: none)
 }
 
 // expiry returns created+timeout of an instance as (sec, nsec), without multiplication.
@@ -187,6 +188,16 @@ const (
 	vOpPushNil
 )
 
+// beforeCall: with a symbolic clock the harness reads the clock itself just before each call.
+func (m *vMon) beforeCall() {
+	m.callStartK = -1
+	if m.symClock {
+		m.callStartK = vClockCount()
+		_ = time.Now()
+		m.clock0 = vClockCount()
+	}
+}
+
 // afterCall runs the per-call oracles.
 func (m *vMon) afterCall(kind int) {
 	vAssert(m.gotLost == m.expLost, "C03/lost-count-differs-from-gaps")
@@ -205,11 +216,13 @@ func (m *vMon) afterCall(kind int) {
 			vAssert(vOr(!isHead, !h.complete), "C10/complete-event-left-at-head")
 		}
 	}
-	// C19: a stale head is flushed by the first call made after its expiry
-	if m.symClock && (kind == vOpPush || kind == vOpMaintain) && vClockCount() > m.clock0 {
-		fs, fn := vClockSec(m.clock0), vClockNsec(m.clock0) // first reading consumed by this call
+	// C19: a stale head is flushed by the first call made after its expiry. "After" is judged by
+	// the harness's own clock reading taken just before the call (the implementation's readings
+	// are not earlier), so a call that never looks at the clock does not escape.
+	if m.symClock && (kind == vOpPush || kind == vOpMaintain) && m.callStartK >= 0 {
+		fs, fn := vClockSec(m.callStartK), vClockNsec(m.callStartK)
 		for _, h := range lv {
-			if h.createdK >= m.clock0 && h.firstPush == m.call {
+			if h.firstPush == m.call {
 				continue // created during this very call
 			}
 			isHead := true
@@ -282,6 +295,7 @@ func VH_Reassembler() {
 			vAssume(seq == 0)
 		}
 		msg := &auparse.AuditMessage{RecordType: auparse.AuditMessageType(typ), Sequence: seq}
+		m.beforeCall()
 		m.notePush(msg, typ, seq)
 		r.PushMessage(msg)
 		m.afterCall(vOpPush)
@@ -296,10 +310,12 @@ func VH_Reassembler() {
 		case vOpPush:
 			doPush(i)
 		case vOpMaintain:
+			m.beforeCall()
 			err := r.Maintain()
 			vAssert(err == nil, "C19/maintain-failed-before-close")
 			m.afterCall(vOpMaintain)
 		case vOpPushNil:
+			m.beforeCall()
 			r.PushMessage(nil)
 			m.afterCall(vOpPushNil)
 		}
